@@ -11,21 +11,26 @@ RUN_MODULE = 'Run.C17'
 THEOREMS = ['C17_content_matches', 'C17_serves_the_intended_archive', 'C17_bad_upload_leaves_nothing',
             'C17_crashed_upload_leaves_nothing', 'C17_key_path_total', 'C17_invalid_id_no_effect',
             'C17_client_content_matches', 'C17_failed_rename_leaves_nothing', 'C17_failed_copy_leaves_nothing',
-            'C17_crash_in_fallback_copy_refuted']
+            'C17_crash_in_fallback_copy_leaves_nothing']
 ASSUMPTIONS = [
     'the digest (BLAKE3 via util::Digest) is an abstract function; C17_serves_the_intended_archive additionally assumes '
     'it is injective on the contents in play ("no BLAKE3 collision", hypothesis no_collision); the other theorems hold for ANY digest function',
     'the cache directory holds, when first opened, only files that sit at a/b/<digest of their content> (an empty '
     'directory in particular) or temp files; nobody else writes into it',
-    'rename(2) of the verified temp file to its final path is atomic (LruDiskCache::commit -> NamedTempFile::persist); '
-    'a crash is modelled at the point where the writer has written its bytes (= any point before the rename)',
-    'I/O errors other than the writer failing / the file missing (permissions, disk full) are not modelled',
+    'rename(2) of the verified temp file to its final path is atomic WHEN IT SUCCEEDS (LruDiskCache::commit -> '
+    'NamedTempFile::persist); that it FAILS (EXDEV / EACCES / ENOSPC) is part of the fault space (TInsertWithXdev, '
+    'TInsertFileCopy) and is replayed on the real code by the mount leg; a crash is modelled at the point where the '
+    'writer has written its bytes (= any point before the rename)',
+    'a process killed in the middle of insert_file\'s fall-back copy (finding C17-K1, fixed by 7ead532) is part of the fault '
+    'space: C17_crash_in_fallback_copy_leaves_nothing, replayed by the mount leg (forked child with RLIMIT_FSIZE, killed by SIGXFSZ)',
+    'I/O errors other than the writer failing / the file missing / the final rename or its fall-back copy failing are not modelled',
     'id validation (lowercase hex, length >= 2) is Toolchain::archive_id_is_valid, owned by the C19 fix; C17 models the same class',
 ]
 TRUSTED = ['hooks: TcCache::verif_insert_file (the private client-side insert_file), TcCache::verif_inner + '
            'LruDiskCache::verif_index (read-only view of the LRU order)',
            'harness c17: a server crash during an upload is reproduced by copying the cache directory (with mtimes) at the '
-           'crash point inside the writer callback and re-opening the copy']
+           'crash point inside the writer callback and re-opening the copy; the mount leg mounts tmpfs file systems on '
+           'shard directories inside its scratch directory in a private mount namespace (unshare(CLONE_NEWNS), always unmounted)']
 
 CAPS = [0, 10, 25, 40, 100]
 SIZES = [0, 1, 4, 5, 10, 12, 13, 20, 26]
@@ -231,8 +236,8 @@ def monitor(case, out):
         if op is not None and op[0] == b'insert_file' and res == b'ok':
             if ret != [dig.get(expand(op[1]))]:
                 vs.append('op %d insert_file: returned id %r for content with digest %r' % (n, ret, dig.get(expand(op[1]))))
-        if op is not None and op[0] in (b'insert_with', b'crash_upload', b'insert_file') and prev is not None:
-            if op[0] == b'insert_file':
+        if op is not None and op[0] in (b'insert_with', b'crash_upload', b'insert_file', b'crash_insert_file') and prev is not None:
+            if op[0] in (b'insert_file', b'crash_insert_file'):
                 content = expand(op[1])
                 i = dig.get(content, b'')
             else:
@@ -242,8 +247,10 @@ def monitor(case, out):
                 vs.append('op %d: upload under id %r of content with digest %r was accepted' % (n, i, dig.get(content)))
             # an upload that was not accepted (mismatch, cut short, final rename / copy failed, too large ...)
             # leaves nothing new under the id: no index entry, no file
-            if bad or (op[0] != b'crash_upload' and res != b'ok'):
-                why = 'rejected' if bad else 'failed (%s)' % res.decode()
+            unfinished = (op[0] == b'crash_insert_file' and ret != [b'done']) or \
+                (op[0] in (b'insert_with', b'insert_file') and res != b'ok')
+            if bad or unfinished:
+                why = 'rejected' if bad else ('killed/failed' if op[0] == b'crash_insert_file' else 'failed (%s)' % res.decode())
                 ppres = {p[0]: p[1] for p in prev[3]}
                 pf = {f[0]: f for f in prev[7]}
                 if pres.get(i) == 1 and ppres.get(i) != 1:
@@ -348,7 +355,7 @@ def mk_mount(cap, mounts, ops):
     for op in ops:
         if op[0] in (b'insert_with', b'crash_upload'):
             contents.append(op[2])
-        elif op[0] == b'insert_file':
+        elif op[0] in (b'insert_file', b'crash_insert_file'):
             contents.append(op[1])
     seen = []
     for c in contents:
@@ -380,7 +387,7 @@ def gen_mount(rng, n, maxlen):
         ops = []
         for _ in range(rng.range(1, maxlen)):
             kind = rng.weighted([('good', 8), ('mismatch', 2), ('cut', 1), ('crash', 2), ('insert_file', 6), ('get', 5),
-                                 ('contains', 1), ('remove', 2), ('reopen', 3)])
+                                 ('contains', 1), ('remove', 2), ('reopen', 3), ('crash_file', 3)])
             j = rng.below(len(pool))
             c, i = pool[j], pid[j]
             if kind == 'good':
@@ -393,6 +400,9 @@ def gen_mount(rng, n, maxlen):
                 ops.append([b'crash_upload', i, [b'rep', c[1], c[2] if rng.chance(1, 2) else rng.below(c[2] + 1)], cap])
             elif kind == 'insert_file':
                 ops.append([b'insert_file', c])
+            elif kind == 'crash_file':
+                # the client is killed while insert_file (its fall-back copy, in a mounted shard) has written k bytes
+                ops.append([b'crash_insert_file', c, rng.below(c[2] + 1) if rng.chance(3, 4) else c[2] + 1, cap])
             elif kind == 'reopen':
                 ops.append([b'reopen', cap if rng.chance(3, 4) else rng.choice(MCAPS)])
             else:
@@ -438,7 +448,7 @@ def nontrivial_mount(case, out):
         for op, obs in zip(case[4], out[1:]):
             if op[0] == b'insert_with' and not op[3] and under_mount(case, op[1]) and dig.get(expand(op[2])) == op[1]:
                 return True
-            if op[0] == b'insert_file' and under_mount(case, dig.get(expand(op[1]), b'')):
+            if op[0] in (b'insert_file', b'crash_insert_file') and under_mount(case, dig.get(expand(op[1]), b'')):
                 return True
     except Exception:
         return True
@@ -453,8 +463,10 @@ def stats_mount(case, out):
             t = op[0].decode()
             if op[0] in (b'insert_with', b'crash_upload'):
                 t += ':mounted' if under_mount(case, op[1]) else ':plain'
-            elif op[0] == b'insert_file':
+            elif op[0] in (b'insert_file', b'crash_insert_file'):
                 t += ':mounted' if under_mount(case, dig.get(expand(op[1]), b'')) else ':plain'
+            if op[0] == b'crash_insert_file' and obs[1]:
+                t += ':' + obs[1][0].decode()
             ks.append('op=' + t + '->' + obs[0].decode())
     except Exception:
         pass
@@ -584,7 +596,8 @@ def legs(tier):
                 nontrivial=nontrivial_mount, compare=lambda m, i: i.strip() == '(skipped)' or m == i,
                 rule='shard directories of the cache that are mount points of their own (tmpfs of 1-3 pages mounted in a '
                      'private mount namespace of the harness): the final rename of a verified upload fails (EXDEV), '
-                     'insert_file falls back to a copy that fits or hits ENOSPC part-way; PRNG sequences of length<=14 + '
+                     'insert_file falls back to a copy that fits, hits ENOSPC part-way, or is cut by a kill of the process (forked child '
+                     'with RLIMIT_FSIZE) followed by a restart; PRNG sequences of length<=14 + '
                      'restart + get of every id, 14 contents of 10..9000 bytes, 4 capacities; non-trivial = a matching '
                      'upload / insert_file went into a mounted shard; skipped (noted in the evidence) without CAP_SYS_ADMIN'),
             Leg('client', lambda rng, tier: gen_client(rng, 20000 if tier == 'thorough' else 1500, 25),
